@@ -19,6 +19,7 @@ META = dict(
     required_hits=["kernel_singlet", "kernel_valence", "kernel_ns", "kernel_real_grids", "kernel_via_quad_ker", "e2e_ladder", "oracle_crosscheck_mp"],
     max_inconclusive_frac=0.05,
 )
+META["level_text"] += " The runner's own quad_ker_qed is evaluated at fixed N (a_em=0, both N3LO variants forced in every chunk, random variation indices); end-to-end ladders cross the bottom matching scale at 1.5 m_b and the top threshold."
 
 TOL = 1e-11
 # (g, gamma, Sigma, Sigma_Delta) <- eko QCD singlet layout [[qq,qg],[gq,gg]] acting on (Sigma, g)
